@@ -54,3 +54,17 @@ claim(
     "Trusted: acnverif/scenario.py Model for occupancy; tolerance 1e-9 relative (+1e-12, battery 1e-11*capacity absolute).",
     "DESIGN.md 3/C02",
 )
+claim(
+    "C04",
+    "Hypothesis-generated schedule sequences (scripted scheduler table inside generated scenarios) vs. the reference model's overlay matrix; per-period read-back of EVSE.current_pilot; metamorphic entry-order reversal; fault injection of malformed schedules with before/after state snapshots and resume",
+    "Exploration: 500 (quick) / 40 000 (thorough) generated scenarios whose scheduler returns generated schedules (empty, any station subset, length 1-6 incl. beyond the horizon in the last period, int/float/numpy values, shuffled entries, any max_recompute). Final pilot_signals (+ DataFrame view) equals the overlay of the submitted schedules on the whole width; the pilot each EVSE holds after every period equals the overlay column; reversed entry order gives a bit-identical result; an unknown station id / unequal rows raise KeyError / InvalidScheduleError with no state change and the run can be resumed.",
+    "Trusted: acnverif/scenario.py Model.overlay; pilots drawn from the station's allowable set.",
+    "DESIGN.md 3/C04",
+)
+claim(
+    "C05",
+    "Hypothesis-generated scenarios run twice (pure recording scheduler vs. a vandal that overwrites everything it is handed); recorded observations at every call compared with the reference model (invocation periods, ledger-derived active sessions, previous rates/peak/pilots, infrastructure from the spec); differential pure vs. vandal",
+    "Exploration: 300 (quick) / 20 000 (thorough) generated scenario pairs over all max_recompute values and scheduler kinds. Invocation periods equal the model's iff-condition; every Interface answer at every call (time, datetime, active sessions and their fields, last rates, previous peak, last applied pilots incl. the empty first two periods, full infrastructure description, per-station accessors, remaining amp-periods) equals the spec/ledger; the vandal run is identical to the pure run in matrices, energies, events, network description and all later observations.",
+    "Trusted: acnverif/scenario.py Model; sessions within 1e-6 kWh of the 1e-3 kWh activity threshold are not judged; only documented copies are vandalised.",
+    "DESIGN.md 3/C05",
+)
